@@ -95,13 +95,29 @@ pub fn knn_radii(x: &Mat, k: usize) -> (Mat, Vec<f64>) {
     (d2, dk)
 }
 
+/// number of other points that are certainly closer to `i` than `j` is
+fn certainly_closer(d2: &Mat, i: usize, j: usize) -> usize {
+    (0..d2.len()).filter(|&l| l != i && l != j && d2[i][l] < d2[i][j] * (1.0 - KNN_BAND)).count()
+}
+/// number of other points that are possibly closer to `i` than `j` is, or tied with it
+fn possibly_closer_or_tied(d2: &Mat, i: usize, j: usize) -> usize {
+    (0..d2.len()).filter(|&l| l != i && l != j && d2[i][l] <= d2[i][j] * (1.0 + KNN_BAND)).count()
+}
+/// `j` is among the k nearest neighbours of `i` however distance ties are broken
+pub fn surely_neighbour(d2: &Mat, k: usize, i: usize, j: usize) -> bool {
+    i != j && possibly_closer_or_tied(d2, i, j) < k
+}
+/// `j` is among the k nearest neighbours of `i` for at least one way of breaking distance ties
+pub fn possibly_neighbour(d2: &Mat, k: usize, i: usize, j: usize) -> bool {
+    i != j && certainly_closer(d2, i, j) < k
+}
 /// pair (i,j) must be stored: one of the two is unambiguously among the other's k nearest
-pub fn must_pair(d2: &Mat, dk: &[f64], i: usize, j: usize) -> bool {
-    i == j || d2[i][j] < dk[i] * (1.0 - KNN_BAND) || d2[i][j] < dk[j] * (1.0 - KNN_BAND)
+pub fn must_pair(d2: &Mat, k: usize, i: usize, j: usize) -> bool {
+    i == j || surely_neighbour(d2, k, i, j) || surely_neighbour(d2, k, j, i)
 }
 /// pair (i,j) may be stored: one of the two is possibly (ties included) among the other's k nearest
-pub fn may_pair(d2: &Mat, dk: &[f64], i: usize, j: usize) -> bool {
-    i == j || d2[i][j] <= dk[i] * (1.0 + KNN_BAND) || d2[i][j] <= dk[j] * (1.0 + KNN_BAND)
+pub fn may_pair(d2: &Mat, k: usize, i: usize, j: usize) -> bool {
+    i == j || possibly_neighbour(d2, k, i, j) || possibly_neighbour(d2, k, j, i)
 }
 
 pub struct Dsu(Vec<usize>);
@@ -184,8 +200,8 @@ pub enum Link {
 pub struct Agglomeration {
     /// (representative of cluster a, representative of cluster b, height) in merge order
     pub merges: Vec<(usize, usize, f64)>,
-    /// no step had two candidate merges within MERGE_GAP
-    pub tie_free: bool,
+    /// per step: another candidate merge was within MERGE_GAP of the chosen one (merge order ambiguous)
+    pub ambiguous: Vec<bool>,
     /// heights never decrease (beyond MERGE_GAP)
     pub monotone: bool,
 }
@@ -205,7 +221,7 @@ pub fn agglomerate(d: &Mat, link: Link) -> Agglomeration {
     let mut active = vec![true; n];
     let mut size = vec![1.0f64; n];
     let mut merges = vec![];
-    let mut tie_free = true;
+    let mut ambiguous = vec![];
     let mut monotone = true;
     let mut last = f64::NEG_INFINITY;
     for _ in 1..n {
@@ -235,12 +251,8 @@ pub fn agglomerate(d: &Mat, link: Link) -> Agglomeration {
             }
         }
         let Some((a, b, v)) = best else { break };
-        if !v.is_finite() {
-            tie_free = false;
-        }
-        if second.is_finite() && second - v <= MERGE_GAP * (1.0 + v.abs().max(second.abs())) {
-            tie_free = false;
-        }
+        let amb = !v.is_finite() || (second.is_finite() && second - v <= MERGE_GAP * (1.0 + v.abs().max(second.abs())));
+        ambiguous.push(amb);
         let h = if link == Link::Ward { v.max(0.0).sqrt() } else { v };
         if h < last - MERGE_GAP * (1.0 + h.abs().max(last.abs())) {
             monotone = false;
@@ -268,7 +280,7 @@ pub fn agglomerate(d: &Mat, link: Link) -> Agglomeration {
         active[a] = false;
         size[b] = na + nb;
     }
-    Agglomeration { merges, tie_free, monotone }
+    Agglomeration { merges, ambiguous, monotone }
 }
 
 /// partition after performing, in order, every merge whose height is < theta
